@@ -52,7 +52,7 @@ def cmp_tables(ctx):
         plan.append((c, "text", [o for o in text if no0(o)]))
     plan.append(("mbuff", "text", text))
     # pairs and triples of objects of DIFFERENT comparison-compatible classes: every text as a str, as a url and as a regexp
-    plan.append(("mix_str_url_regexp", "laws", [o for o in text if no0(o)][:150]))
+    plan.append(("mix_str_url_regexp", "laws", [o for o in text if no0(o)][:110]))
     for c in ("str_nul", "ustr_nul"):
         plan.append((c, "laws", text))      # incl. texts with embedded NUL: laws only
     plan.append(("objpair", "pair", [o for o in pair if no0(o)]))
@@ -60,7 +60,7 @@ def cmp_tables(ctx):
         plan.append((c, "laws", [o for o in text if o["null"] or not o["v"] or o["v"][-1] != 0]))
     for c, kind, objs in plan:
         lines.append("class %s %s" % (c, kind))
-        objs = objs[:250]
+        objs = objs[:(250 if ctx.tier == "quick" else 330)]
         for o in objs:
             lines.append("obj %s %s %s" % (tok(o["null"]), tok(o["k"]), tok(o["v"])))
         if c.startswith("mix"):
@@ -207,8 +207,9 @@ def small_objects(ctx):
     exe = build.build_harness("small_replay", ["small_replay.c"], libdir, cflags)
     walks = (200, 30) if ctx.tier == "quick" else (3000, 60)
     for c in SMALL:
-        g, res = objcheck.tlc_graph(ctx, "MC_SmallObj.tla", "SmallObj_%s.cfg" % c, ignore_untaken=SMALL_NA[c], workers=2)
-        objcheck.replay_cover(ctx, g, [tok(SMALL_INIT)], exe, c, [c], small_key, walks=walks, pairs=200000)
+        cfg = "SmallObj_%s_thorough.cfg" % c if (ctx.tier != "quick" and c in ("tok", "objpair")) else "SmallObj_%s.cfg" % c
+        g, res = objcheck.tlc_graph(ctx, "MC_SmallObj.tla", cfg, ignore_untaken=SMALL_NA[c], workers=2)
+        objcheck.replay_cover(ctx, g, [tok(SMALL_INIT)], exe, c, [c], small_key, walks=walks, pairs=(200000 if ctx.tier == "quick" else 1000000))
 
 
 def container_dup(ctx):
